@@ -253,3 +253,9 @@ Definition graph_of {V} (name : Z) (blocks : list ((Z * Z) * V)) : list (gkey * 
 (* the blocks of the array called [name] as read from a (merged) graph *)
 Definition read_array {V} (g : list (gkey * V)) (name : Z) (positions : list (Z * Z)) : list (option V) :=
   map (fun p => glookup g (name, p)) positions.
+
+(* ---------------- a source area that is itself a slice (of a slice ...) of a bigger area: big[r0:, c0:][r1:, c1:]... ----------------
+   its coordinate arrays are the big area's, read from the accumulated start on *)
+Definition slice_steps {T} (F : fields T) (steps : list (Z * Z)) : fields T :=
+  fold_left (fun G s => shift_fields G (fst s) (snd s)) steps F.
+Definition steps_start (steps : list (Z * Z)) : Z * Z := fold_left (fun acc s => (fst acc + fst s, snd acc + snd s)) steps (0, 0).
